@@ -5,7 +5,7 @@ Require Import ZV.Ref.
 Import ListNotations.
 Open Scope Z_scope.
 
-(* For every history of AddRef / DecRef(=Close) operations on a freshly opened segment (refs = 1)
+(* For every history of AddRef / DecRef(=Close) / Use (a reader: query, visit, merge input - failing or not) operations on a freshly opened segment (refs = 1)
    whose count stays positive until the end and ends at zero: after every proper prefix the segment
    is still mapped with nothing released, and the final operation unmaps it exactly once.
    Each operation runs under the segment's mutex, i.e. is one atomic step, so a concurrent
@@ -19,7 +19,15 @@ Print Assumptions C20_refcount.
 
 (* the hypotheses are satisfiable by a non-trivial history *)
 Theorem C20_nonvacuous :
-  let ops := [Ref.AddRef; Ref.DecRef; Ref.AddRef; Ref.DecRef; Ref.DecRef] in
+  let ops := [Ref.AddRef; Ref.Use; Ref.DecRef; Ref.AddRef; Ref.Use; Ref.DecRef; Ref.DecRef] in
   Ref.Inv Ref.init /\ Ref.positive_until_end (Ref.refs Ref.init) ops /\ Ref.count (Ref.refs Ref.init) ops = 0.
 Proof. exact Ref.c20_example. Qed.
 Print Assumptions C20_nonvacuous.
+
+(* the atomicity the theorem assumes is necessary: with the decrement and the zero test as two
+   separate steps there is a schedule releasing the segment twice (tie/RefTie.v checks the source
+   keeps them in one critical section) *)
+Theorem C20_split_decref_refuted :
+  exists sched, Ref.releases (fold_left Ref.step2 sched (Ref.step Ref.init Ref.AddRef)) = 2%nat.
+Proof. exact Ref.C20_split_decref_refuted. Qed.
+Print Assumptions C20_split_decref_refuted.
